@@ -101,27 +101,9 @@ fn main() {
         id => {
             if let Some(path) = &replay {
                 let v: serde_json::Value = serde_json::from_str(&std::fs::read_to_string(path).expect("read replay")).expect("replay json");
-                match id {
-                    "C01" => props::c01::replay(&ctx, &v),
-                    "C10" => props::c10::replay(&ctx, &v),
-                    "C02" => props::c02::replay(&ctx, &v),
-                    "C08" => props::c08::replay(&ctx, &v),
-                    _ => {
-                        eprintln!("unknown property {}", id);
-                        2
-                    }
-                }
+                props::replay(id, &ctx, &v)
             } else {
-                match id {
-                    "C01" => props::c01::run(&ctx),
-                    "C10" => props::c10::run(&ctx),
-                    "C02" => props::c02::run(&ctx),
-                    "C08" => props::c08::run(&ctx),
-                    _ => {
-                        eprintln!("unknown property {}", id);
-                        2
-                    }
-                }
+                props::run(id, &ctx)
             }
         }
     };
